@@ -31,7 +31,7 @@ type c18 struct{}
 func (c18) ID() string    { return "C18" }
 func (c18) Level() string { return "fault_enumeration" }
 func (c18) Rule() string {
-	return "case = (program, config, start state in {template, linker cache empty, linker binary missing with stamp intact, cache aged 6 days}, -p, schedule, list of crashes (step index, kind in {kill, torn write cut at 0/1/half/size-1, kill with the linker output truncated}), optional loss of the newest GOCACHE files after the kill). Crash points are event indexes of the recorded canonical run; thorough enumerates every index of the template start state and every index of the linker-build and trim windows of the other start states; quick takes a stratified seeded sample that favours mutating events. Non-trivial = at least one kill really happened before the build finished; distinct = distinct (start state, crash list, post-kill damage, schedule)."
+	return "case = (program, config, start state in {template, linker cache empty, linker binary missing with stamp intact, cache aged 7 days, -debugdir build}, -p, schedule, list of crashes (step index, kind in {kill, torn write cut at 0/1/half/size-1, kill with the linker output truncated}), optional loss of the newest GOCACHE files after the kill). Crash points are event indexes of the recorded canonical run; thorough enumerates every index of the template start state and every index of the linker-build and trim windows of the other start states; quick takes a stratified seeded sample that favours mutating events. Non-trivial = at least one kill really happened before the build finished; distinct = distinct (start state, crash list, post-kill damage, schedule)."
 }
 func (c18) Assumptions() []string {
 	return []string{
@@ -222,7 +222,7 @@ func (c c18) Generate(e *Env) ([]*Case, error) {
 	// loss of cmd/go's own in-flight GOCACHE writes after a kill
 	nl := 4
 	if thorough {
-		nl = 30
+		nl = 12
 	}
 	for i := 0; i < nl; i++ {
 		k := rng.Intn(n)
@@ -231,7 +231,7 @@ func (c c18) Generate(e *Env) ([]*Case, error) {
 	// repeated crashes: second and third kill during the reruns
 	nr := 3
 	if thorough {
-		nr = 25
+		nr = 10
 	}
 	for i := 0; i < nr; i++ {
 		cr := []c18Crash{crashAt(rec, rng.Intn(n), "kill", ""), {Step: rng.Intn(n), Kind: "kill"}}
@@ -243,7 +243,7 @@ func (c c18) Generate(e *Env) ([]*Case, error) {
 	// crash points under non-canonical schedules at -p 4
 	np := 4
 	if thorough {
-		np = 40
+		np = 16
 	}
 	for i := 0; i < np; i++ {
 		add(c18Params{Prog: prog, Start: "template", P: 4, Sched: SchedSpec{Kind: []string{"random", "sticky", "pct"}[rng.Intn(3)], Seed: rng.Int63()},
